@@ -1,7 +1,124 @@
 import ScVerif.Base.Line
-/-! Driver handler for C07 (stub: replaced by the property's owner). -/
-namespace ScVerif.C07
+import ScVerif.C07.Flat
+import ScVerif.C07.Rim
+/-!
+Driver handler for C07 (stateful).  One op per line; the answer lists every message that crossed
+the boundary in this op by its contents; `audit` prints the current contents of every published
+reference (crossing order) and of every caller-owned message.
 
-def handle (_toks : List String) : String := "!bad-op"
+  init <writable|-> <initial msg|->
+  alloc <msg> | mutate <k> <msg>
+  vset <k> <umask> <before> <after> <expect|->           vget <rmask>   vpull <rmask> <uo>   vclose <i>
+  cupd <id> <k> <umask> <before> <after> <expect|-> <flags>   cdel <id> <expect|-> <flags>
+  cget <id> <rmask>   clist <rmask>   cpull <rmask> <uo>   cclose <i>
+  audit
+
+msg = `a,b,c,d`; mask = `-` (nil) | `0` (empty) | letters of `abcd`; callbacks: `-` | `add:<f>` | `set:<f>:<n>`;
+flags: letters of `c` (create if absent) `x` (expect absent) `m` (allow missing) or `-`.
+-/
+namespace ScVerif.C07
+open ScVerif.Line
+
+def parseMsg? (s : String) : Option Msg :=
+  match (s.splitOn ",").mapM parseInt? with
+  | some [a, b, c, d] => some ⟨a, b, c, d⟩
+  | _ => none
+
+def showMsg (m : Msg) : String := s!"{m.a},{m.b},{m.c},{m.d}"
+
+def fieldIdx? (c : Char) : Option Nat :=
+  if c = 'a' then some 0 else if c = 'b' then some 1 else if c = 'c' then some 2 else if c = 'd' then some 3 else none
+
+def parseMask? (s : String) : Option (Option FMask) :=
+  if s = "-" then some none
+  else if s = "0" then some (some [])
+  else (s.toList.mapM fieldIdx?).map some
+
+def parseOptMsg? (s : String) : Option (Option Msg) :=
+  if s = "-" then some none else (parseMsg? s).map some
+
+/-- named interceptors shared with the harness; all of them write only `new` -/
+def cbAdd (f : Nat) : Cb Msg := fun h o n =>
+  h.set n ((h n).setF f ((h n).get f + (match o with | some r => (h r).get f | none => 0)))
+
+def cbSet (f : Nat) (v : Int) : Cb Msg := fun h _ n => h.set n ((h n).setF f v)
+
+def parseCb? (s : String) : Option (Option (Cb Msg)) :=
+  if s = "-" then some none else
+  match s.splitOn ":" with
+  | ["add", f] => do
+    let i ← (f.toList.head?).bind fieldIdx?
+    pure (some (cbAdd i))
+  | ["set", f, v] => do
+    let i ← (f.toList.head?).bind fieldIdx?
+    let x ← parseInt? v
+    pure (some (cbSet i x))
+  | _ => none
+
+def mkOpts (um : Option FMask) (b a : Option (Cb Msg)) (e : Option Msg) (flags : String) : WOpts Msg FMask :=
+  { umask := um, before := b, after := a, expected := e,
+    createIfAbsent := flags.toList.contains 'c', expectAbsent := flags.toList.contains 'x',
+    allowMissing := flags.toList.contains 'm' }
+
+def parseOp? (toks : List String) : Option (Op Msg FMask) :=
+  match toks with
+  | ["alloc", m] => do pure (.alloc (← parseMsg? m))
+  | ["mutate", k, m] => do pure (.mutate (← parseNat? k) (← parseMsg? m))
+  | ["vset", k, um, b, a, e] => do
+    pure (.vset (← parseNat? k) (mkOpts (← parseMask? um) (← parseCb? b) (← parseCb? a) (← parseOptMsg? e) "-"))
+  | ["vget", rm] => do pure (.vget (← parseMask? rm))
+  | ["vpull", rm, uo] => do pure (.vpull (← parseMask? rm) (← parseBool? uo))
+  | ["vclose", i] => do pure (.vclose (← parseNat? i))
+  | ["cupd", id, k, um, b, a, e, fl] => do
+    pure (.cupd (← parseNat? id) (← parseNat? k) (mkOpts (← parseMask? um) (← parseCb? b) (← parseCb? a) (← parseOptMsg? e) fl))
+  | ["cdel", id, e, fl] => do
+    pure (.cdel (← parseNat? id) (mkOpts none none none (← parseOptMsg? e) fl))
+  | ["cget", id, rm] => do pure (.cget (← parseNat? id) (← parseMask? rm))
+  | ["clist", rm] => do pure (.clist (← parseMask? rm))
+  | ["cpull", rm, uo] => do pure (.cpull (← parseMask? rm) (← parseBool? uo))
+  | ["cclose", i] => do pure (.cclose (← parseNat? i))
+  | _ => none
+
+def showItem (h : Heap Msg) : Item → String
+  | .msg r => showMsg (h r)
+  | .absent => "-"
+  | .tag s => s
+
+def showAns (h : Heap Msg) (a : Ans) : String :=
+  if a.bad then "!bad-op" else
+  let head := match a.err with | some e => "err:" ++ e.name | none => "ok"
+  "|".intercalate (head :: a.items.map (showItem h))
+
+def showRefs (h : Heap Msg) (rs : List Ref) : String := ";".intercalate (rs.map fun r => showMsg (h r))
+
+def initState (w : Option FMask) (iv : Option Msg) : St Msg FMask :=
+  match iv with
+  | none => St.init w (fun _ => Msg.zero)
+  | some m =>
+    -- WithInitialValue stores the given message itself; it counts as published from the start
+    { St.init w (fun _ => Msg.zero) with heap := Heap.set (fun _ => Msg.zero) 0 m, next := 1, val := some 0, pub := [0] }
+
+abbrev DrvState := St Msg FMask
+
+def DrvState.start : DrvState := initState none none
+
+def handleCore (s : DrvState) (toks : List String) : DrvState × String :=
+  match toks with
+  | ["init", w, iv] =>
+    match parseMask? w, parseOptMsg? iv with
+    | some w, some iv => (initState w iv, "ok")
+    | _, _ => (s, "!bad-op")
+  | ["audit"] => (s, "pub=" ++ showRefs s.heap s.pub ++ " own=" ++ showRefs s.heap s.owned)
+  | _ =>
+    match parseOp? toks with
+    | none => (s, "!bad-op")
+    | some op =>
+      let (s', a) := step flat s op
+      (s', showAns s'.heap a)
+
+def handle (s : DrvState) (toks : List String) : DrvState × String :=
+  match toks with
+  | "rim" :: rest => (s, handleRim rest)
+  | _ => handleCore s toks
 
 end ScVerif.C07
